@@ -1128,6 +1128,57 @@ func c02Run(c *hx.Ctx) {
 		return true
 	})
 	flush()
+	// extra hand-built family: for loops whose COUNTER IS INJECTED (S.F), so that a step evaluated once
+	// too often - after a return, a break, a failed body - shows in the host state; worker 0 only
+	if c.Shard == 0 {
+		for _, tree := range c02InjectedLoops() {
+			for vi := 0; vi < c02NVals(c.Thorough()); vi++ {
+				p := c02Frame(tree, true)
+				c02Annotate(p, c02Vals[vi].host())
+				batch = append(batch, &c02Case{Family: "injloop", Nodes: 0, Val: vi, Body: c02Body(p), Prog: p})
+			}
+			c.Res.AddExtra("trees", 1)
+		}
+		flush()
+	}
+}
+
+// c02InjectedLoops builds the loop bodies of the "injloop" family.
+func c02InjectedLoops() []*c02B {
+	type S = c02S
+	type B = c02B
+	obs := func() *S { return &S{Kind: ref.SObs} }
+	asg := func(t, op string, e ref.SExpr) *S { return &S{Kind: ref.SAssign, Target: t, Op: op, E: &e} }
+	blk := func(ss ...*S) *B { return &B{Stmts: ss} }
+	ret := func(b *B, e *ref.SExpr) *B { b.Ret = &ref.SReturn{E: e}; return b }
+	eq := func(v string, c int64) ref.SCond { return ref.SCond{Op: "==", Var: v, C: c} }
+	gt := func(v string, c int64) ref.SCond { return ref.SCond{Op: ">", Var: v, C: c} }
+	iff := func(c ref.SCond, then *B) *S { return &S{Kind: ref.SIf, Cond: &c, Then: then} }
+	forr := func(v string, n int64, body *B) *S { return &S{Kind: ref.SFor, Var: v, N: n, Body: body} }
+	rng := func(v, coll string, body *B) *S { return &S{Kind: ref.SRange, Var: v, Coll: coll, Body: body} }
+	brk, cont := &S{Kind: ref.SBreak}, &S{Kind: ref.SContinue}
+	ef, ex, e7 := c02V("S.F"), c02V("x"), c02C(7)
+	const F = "S.F"
+	var out []*B
+	for _, n := range []int64{0, 1, 3} {
+		out = append(out,
+			blk(forr(F, n, blk(obs()))),
+			blk(forr(F, n, blk())),
+			blk(forr(F, n, blk(iff(eq(F, 1), ret(blk(), &ef)), obs()))),
+			blk(forr(F, n, blk(iff(eq(F, 1), ret(blk(), nil))))),
+			blk(forr(F, n, blk(iff(eq(F, 0), ret(blk(), &e7))))),
+			blk(forr(F, n, ret(blk(obs()), &ef))),
+			blk(forr(F, n, blk(iff(eq(F, 1), blk(cont)), obs()))),
+			blk(forr(F, n, blk(iff(eq(F, 1), blk(brk)), obs()))),
+			blk(forr(F, n, blk(asg("x", "+=", c02C(1)), iff(gt("x", 1), ret(blk(), &ex))))),
+			blk(forr("i", 2, blk(forr(F, n, blk(iff(eq(F, 1), ret(blk(), &ef))))))),
+			blk(forr(F, n, blk(forr("j", 2, blk(iff(eq("j", 1), ret(blk(), &ef))))))),
+			blk(forr(F, n, blk(rng("k", "L2", blk(iff(eq("k", 1), ret(blk(), &ef))))))),
+			blk(rng("k", "L2", blk(forr(F, n, blk(iff(eq(F, 1), blk(brk)))), obs()))),
+			blk(forr(F, n, blk(asg("y", ":=", ef), iff(eq("y", 2), ret(blk(), &ex))))),
+		)
+	}
+	return out
 }
 
 func c02Replay(v *hx.Violation) []hx.Finding {
